@@ -29,7 +29,7 @@ func init() {
 
 var profC12 = Profile{
 	MaxBars: 8, MinBars: 2, MaxSteps: 40, Refresh: []string{"manual", "manual", "autoinj", "autort"}, QLens: []int{-1},
-	Pop: 25, Queue: 20, Prio: true, Ext: 10, Rm: 30, NoPop: 20, AbortW: 3, TicksW: 10,
+	Pop: 25, Queue: 20, LateSuccW: 2, Prio: true, Ext: 10, Rm: 30, NoPop: 20, AbortW: 3, TicksW: 10,
 	SyncDecors: 3, PlainDecors: 1, Wraps: true, NoDecorPct: 10, ChurnW: 2, DisabledPct: 8, Fillers: []string{"tag", "nop", "bar"}, LateAdd: true, Cancel: 8,
 }
 
